@@ -34,7 +34,12 @@ Inductive opk :=
 (* stake / prepay through a real evmclient.EvmClient over a scripted chain node: [s] is the
    outcome of the Send (SHash: the hash of the transaction the node received), [w] what the
    chain holds for that transaction, [late]: the client's own watcher had consumed the receipt
-   before the registry started to wait.  The recorded Send is the transaction the node received. *)
+   before the registry started to wait.  The recorded Send is the transaction the node received.
+   The driver may keep OTHER transactions of the same client outstanding (sent directly, own
+   nonces) and have them mined in the same block with different receipt statuses; they are
+   irrelevant context: they appear neither in this term nor in the recorded trace (only in the
+   JSON input), and the model function and the checker stay the same - the outcome depends on
+   [w], the transaction's own receipt, alone. *)
 | OpRegisterVia (amount : option Z) (s : sendres) (w : receiptres) (late : bool).
 
 (* kind: 0 = provider registry, 1 = bidder registry.
